@@ -15,9 +15,9 @@ EXPLANATION = (
     "k-models (solved_only_optimal, data_only_when_solved, data_only_after_optimal, getters_raise_before_solved) and one faithful "
     "loop model per search class (search_sound / search_inconclusive for MinPathCover, MinPathCoverCycles and the main loops of "
     "MinFlowDecomp, MinFlowDecompCycles; npo_sound). The faithful MinGenSet loop violates search_inconclusive (mgs_refuted; it is also "
-    "what makes MinFlowDecomp[Cycles] start above an unproven lower bound, mfd_refuted_skipped_lowerbound) and MinFlowDecomp leaves "
-    "the interpreter with exit(0) when its MinGenSet model is unsolved (mfd_refuted_exit); the positive theorems for those are proved "
-    "for the model with the switches off. Inconclusive statuses in the guessed-weights model are not required to stop the search: "
+    "what makes MinFlowDecomp[Cycles] start above an unproven lower bound, mfd_refuted_skipped_lowerbound); the positive theorems are "
+    "proved for the model with the switch off. (The exit(0) of MinFlowDecomp on an unsolved MinGenSet model, mfd_refuted_exit, was repaired "
+    "in /repo 78680dc; the exclusive upper end of the k-ranges in 67a34b1: both switches are off in the faithful model.) Inconclusive statuses in the guessed-weights model are not required to stop the search: "
     "the theorem proved instead is that a Solved k stays certified (mfd_search_sound). Tie: E4, exhaustive over positions x injected "
     "statuses per input; the property is also evaluated directly on every run of the implementation.")
 ASSUMPTIONS = [
@@ -34,6 +34,10 @@ INCONCLUSIVE = ["kTimeLimit", "kInterrupt", "kUnknown", "kSolutionLimit", "custo
 TOK = {"kOptimal": 0, "kInfeasible": 1, "kTimeLimit": 2}
 K_MGS = "mgs_skips_inconclusive"
 K_EXIT = "mfd_exit_on_mgs_unsolved"
+# switches of the faithful model: on while the finding is "open" in known_findings.json, off once it is "fixed"
+SWITCH = {K_MGS: 1, K_EXIT: 1}
+# DESIGN §6 #1 (exclusive upper end of range(lb, |E|)) was repaired in /repo commit 67a34b1: the switch of the model is off
+UPPER_EXCL = 0
 
 
 # ------------------------------------------------------------------------------------------ tap
@@ -216,6 +220,8 @@ def observe(tap, spec, inject, over_after=None):
         outcome = "X"
     except ZeroDivisionError:
         outcome = "C"
+    except Exception as e:                       # nothing else may escape solve()
+        outcome = "E:" + type(e).__name__
     log = tap.log; mism = list(tap.mismatch)
     tap.inject = {}; tap.over_after = None         # no injection while reading results
     post = getters(m, spec.count)
@@ -255,7 +261,7 @@ def spec_mfd(fp, edges, opts):
                            solver_options=dict(SO)).get_lowerbound_k()
     ne = G.number_of_edges(); nw = len({f for _, _, f in edges})
     gr = []
-    for k in range(ne + 1):
+    for k in range(ne + 2):
         try:
             gr.append(bool(fp.kFlowDecomp(graph_of(edges), flow_attr="flow", k=k, weight_type=int,
                                           optimization_options=copy.deepcopy(opts), solver_options=dict(SO)).is_solved()))
@@ -266,7 +272,7 @@ def spec_mfd(fp, edges, opts):
         m = obs["m"]; gwm = getattr(m, "_given_weights_model", None); gw = 0
         if gwm is not None and gwm.is_solved():
             gw = len(gwm.get_solution(remove_empty_paths=True)["paths"])
-        return "mfd " + common.toks(1, 1, lb0, ne, bool(opts.get("use_min_gen_set_lowerbound")), nw,
+        return "mfd " + common.toks(SWITCH[K_MGS], SWITCH[K_EXIT], UPPER_EXCL, lb0, ne, bool(opts.get("use_min_gen_set_lowerbound")), nw,
                                     bool(opts.get("optimize_with_guessed_weights")), gw, len(gr), gr, raw_toks(obs["log"]))
     return Spec("MinFlowDecomp", {"edges": edges}, opts, build, request,
                 lambda s: len(s["paths"]), lambda m: m.fd_model)
@@ -291,7 +297,7 @@ def spec_mfdc(fp, edges, opts, timed):
             gw = len(gwm.get_solution(remove_empty_walks=True)["walks"])
         oa = obs.get("over_after")
         ov = [oa is not None and n >= oa for n in range(obs["used"] + 2)]
-        return "mfdc " + common.toks(1, lb0, ne, bool(opts.get("use_min_gen_set_lowerbound")), nw,
+        return "mfdc " + common.toks(SWITCH[K_MGS], UPPER_EXCL, lb0, ne, bool(opts.get("use_min_gen_set_lowerbound")), nw,
                                      bool(opts.get("optimize_with_guessed_weights")), gw, len(ov), ov, raw_toks(obs["log"]))
     return Spec("MinFlowDecompCycles", {"edges": edges, "timed": timed}, opts, build, request,
                 lambda s: len(s["walks"]), lambda m: m.fd_model)
@@ -307,7 +313,7 @@ def spec_mpc(fp, edges, cyc):
     ne = probe.G.number_of_edges()        # the exclusive upper end as the implementation computes it (MinPathCover: s-t augmented graph)
 
     def request(obs):
-        return ("mpcc " if cyc else "mpc ") + common.toks(lb, ne, raw_toks(obs["log"]))
+        return ("mpcc " if cyc else "mpc ") + common.toks(UPPER_EXCL, lb, ne, raw_toks(obs["log"]))
     return Spec(cls.__name__, {"edges": edges, "cyc": cyc}, {}, build, request,
                 (lambda s: len(s["walks"])) if cyc else (lambda s: len(s["paths"])), lambda m: m.model)
 
@@ -319,7 +325,7 @@ def spec_mgs(fp, inp):
                             remove_complement_values=inp["remove_complement_values"], solver_options=dict(SO))
 
     def request(obs):
-        return "mgs " + common.toks(1, inp["lowerbound"], len(inp["numbers"]), raw_toks(obs["log"]))
+        return "mgs " + common.toks(SWITCH[K_MGS], inp["lowerbound"], len(inp["numbers"]), raw_toks(obs["log"]))
     return Spec("MinGenSet", inp, {}, build, request, lambda s: len(s), lambda m: m)
 
 
@@ -663,10 +669,13 @@ def run(ctx):
                 "plus positions deeper in the k-range reached by forcing kInfeasible, plus elapsed-time exits), or one op history of a k-model; "
                 "inputs: flow DAGs <= 6 nodes, cyclic flow graphs <= 6 nodes, number lists <= 5 numbers; "
                 "non-trivial = the injected status was actually consumed; distinct by (class, input, options, injection)")
+    for key in SWITCH:
+        SWITCH[key] = 1 if ctx.open_finding(key) else 0
+    ctx.notes.append({"faithful_model_switches": dict(SWITCH)})
     tap = Tap()
     try:
-        n = ctx.budget(10, 150)
-        run_kmodels(ctx, tap, fp, ctx.budget(32, 600))
+        n = ctx.budget(16, 200)
+        run_kmodels(ctx, tap, fp, ctx.budget(48, 800))
         for i in range(n):
             rng = ctx.rng("mgs", i)
             run_spec(ctx, tap, spec_mgs(fp, mgs_input(rng)), extend=0)
@@ -702,6 +711,8 @@ def run(ctx):
 
 def replay(ctx, body):
     import flowpaths as fp
+    for key in SWITCH:
+        SWITCH[key] = 1 if ctx.open_finding(key) else 0
     tap = Tap()
     try:
         if "kmodel" in body:
